@@ -19,7 +19,8 @@ const spaceId = "verif-kv-space"
 // repo's rpctest package (the same wiring as keyvalue_test.go).
 type rpcServer struct {
 	spacesyncproto.DRPCSpaceSyncUnimplementedServer
-	svc kvinterfaces.KeyValueService
+	svc  kvinterfaces.KeyValueService
+	done chan error // one entry per finished StoreElements handler
 }
 
 func (t *rpcServer) StoreDiff(ctx context.Context, req *spacesyncproto.StoreDiffRequest) (*spacesyncproto.StoreDiffResponse, error) {
@@ -34,7 +35,15 @@ func (t *rpcServer) StoreElements(stream spacesyncproto.DRPCSpaceSync_StoreEleme
 	if msg.SpaceId == "" {
 		return errors.New("verif: first stream message carries no space id")
 	}
-	return t.svc.HandleStoreElementsRequest(stream.Context(), stream)
+	// Background context, as in the repo's own fixture: the server persists the pushed values after it
+	// has sent its terminator, and the client's ReleaseDrpcConn closes a connection whose stream is not
+	// finished within 200 ms — with the stream's context a slow server write would then be interrupted
+	// (timing-dependent; outside C12, reported in notes/areas/kv.md as an observation).
+	err = t.svc.HandleStoreElementsRequest(bg, stream)
+	if t.done != nil {
+		t.done <- err
+	}
+	return err
 }
 
 func (s *store) service() kvinterfaces.KeyValueService {
@@ -57,7 +66,8 @@ func syncOnce(a, b *store) error {
 	if err := spacesyncproto.DRPCRegisterSpaceSync(srvA, &rpcServer{svc: svcA}); err != nil {
 		return err
 	}
-	if err := spacesyncproto.DRPCRegisterSpaceSync(srvB, &rpcServer{svc: svcB}); err != nil {
+	handlerDone := make(chan error, 4)
+	if err := spacesyncproto.DRPCRegisterSpaceSync(srvB, &rpcServer{svc: svcB, done: handlerDone}); err != nil {
 		return err
 	}
 	serverConn, clientConn := rpctest.MultiConnPair(a.owner.peerId, b.owner.peerId+"-srv")
@@ -78,5 +88,19 @@ func syncOnce(a, b *store) error {
 	}()
 	ctx, cancel := context.WithTimeout(bg, 60*time.Second)
 	defer cancel()
-	return keyvalue.VerifSyncWithPeer(ctx, svcA, serverPeer)
+	err = keyvalue.VerifSyncWithPeer(ctx, svcA, serverPeer)
+	// The server persists what was pushed to it AFTER it has sent its terminator, i.e. possibly after
+	// the client's call has returned: the exchange is complete when the server's handler is done.
+	// (Closing the connection before that would cancel the handler's context mid-write.)
+	select {
+	case herr := <-handlerDone:
+		if err == nil && herr != nil {
+			err = errors.New("server handler: " + herr.Error())
+		}
+	case <-time.After(60 * time.Second):
+		if err == nil {
+			err = errors.New("server handler did not finish")
+		}
+	}
+	return err
 }
